@@ -37,6 +37,7 @@ import (
 const (
 	c29KnownJSMinLen  = "C29-js-no-min-length"
 	c29KnownPyIgnore  = "C29-py-ignores-invalid-utf8"
+	c29KnownMangled   = "C29-non-utf8-header-values-mangled"
 	c29MarkerLiteral  = `"kfs_lfs"`
 	c29DetectWindow   = 50
 	c29DetectMinBytes = 15
@@ -518,6 +519,11 @@ func TestVF_C29_Envelopes(t *testing.T) {
 			envs[i] = c29GenEnvelope(t)
 			r, err := EncodeEnvelope(envs[i])
 			if err != nil {
+				if !reflect.DeepEqual(c29SanitizeEnv(envs[i]), envs[i]) {
+					// refusing to encode text that JSON cannot carry is a clean rejection
+					st.Class("encode-rejected(invalid UTF-8 field)")
+					continue
+				}
 				t.Fatalf("EncodeEnvelope rejected a proxy-shaped envelope %+v: %v", envs[i], err)
 			}
 			raws[i] = r
@@ -525,10 +531,20 @@ func TestVF_C29_Envelopes(t *testing.T) {
 		st.Class(fmt.Sprintf("envelopes-encoded-before-any-is-consumed:%d", n))
 		for i := range envs {
 			e, raw := envs[i], raws[i]
-			want := c29SanitizeEnv(e)
-			lossy := !reflect.DeepEqual(want, e)
+			if raw == nil {
+				continue
+			}
+			// Header values are byte strings; the envelope must give back what was assigned.
+			// While the lossy U+FFFD substitution is a listed finding, such envelopes are
+			// compared after the substitution (and counted); otherwise exactly.
+			want := e
+			lossy := !reflect.DeepEqual(c29SanitizeEnv(e), e)
 			if lossy {
-				st.Class("invalid-utf8-field(compared after U+FFFD substitution)")
+				st.Class("invalid-utf8-field")
+				if vfkit.Known(c29KnownMangled) {
+					st.ExcludedCase(c29KnownMangled)
+					want = c29SanitizeEnv(e)
+				}
 			}
 			nonASCII := c29HasNonASCII(e)
 			if nonASCII {
